@@ -6,6 +6,7 @@ import z3
 from .values import *   # noqa: F401,F403
 from .interp import Engine, Stats
 from . import cp1252
+from . import known as known_mod
 
 
 def to_value(E, x):
@@ -81,8 +82,22 @@ def install_check(E, max_violations):
                     parts.append(g_and(g, z3.Not(t)))
         else:
             parts = [q]
+        known = [k for k in E.known if known_mod.applies(k, E.job_name, label)]
         for p in parts:
             sat = E._check() if p is True else E._check(p)
+            if sat and known:
+                # ask for a violation that is none of the listed known findings
+                env = {n: v[1].e for n, v in E.inputs.items() if v[0] in ("int", "random") and isinstance(v[1], SymInt)}
+                excl = [known_mod.to_z3(k["match"], env) if k.get("match") else z3.BoolVal(True) for k in known]
+                if all(x is not None for x in excl):
+                    fresh = g_and(p, z3.Not(z3.Or(*excl)) if len(excl) > 1 else z3.Not(excl[0]))
+                    if not (E._check() if fresh is True else E._check(fresh)):
+                        # every violation here is a listed known finding: record one witness and carry on
+                        if E._check(need_model=True) if p is True else E._check(p, need_model=True):
+                            inputs = model_inputs(E, E.solver.model())
+                            E.known_hits.append({"kind": "check", "label": label, "inputs": inputs})
+                        continue
+                    p = fresh
             if sat:
                 sat = E._check(need_model=True) if p is True else E._check(p, need_model=True)
             if sat:
@@ -127,6 +142,7 @@ def explore(E, fn, args, *, initial_work=None, max_paths=None, deadline=None, co
     E.solver.set("timeout", E.solver_timeout_ms)
     E.work = [list(t) for t in (initial_work if initial_work is not None else [[]])]
     E.violations = []
+    E.known_hits = []
     E.reached = {}
     E.fp_uses = []
     E.second = {}
@@ -163,7 +179,16 @@ def explore(E, fn, args, *, initial_work=None, max_paths=None, deadline=None, co
                 completed += 1
                 E.reached["<end>"] = E.reached.get("<end>", 0) + 1
                 if len(models) < collect_models and E.concrete_inputs is None:
-                    if E._check(need_model=True):
+                    extra = []
+                    if E.known:
+                        # the reachability witness / self-check vector must not be one of the listed known findings
+                        env = {n: v[1].e for n, v in E.inputs.items() if v[0] in ("int", "random") and isinstance(v[1], SymInt)}
+                        for k in E.known:
+                            if k.get("match"):
+                                t = known_mod.to_z3(k["match"], env)
+                                if t is not None:
+                                    extra.append(z3.Not(t))
+                    if E._check(*extra, need_model=True):
                         models.append(model_inputs(E, E.solver.model()))
             except PathAbort:
                 E.stats.aborted += 1
@@ -196,7 +221,7 @@ def explore(E, fn, args, *, initial_work=None, max_paths=None, deadline=None, co
         "reached": dict(E.reached), "models": models, "completed": completed,
         "pending": [list(t) for t in E.work] if status == "split" else [],
         "wall_s": round(time.time() - t0, 3), "fp_uses": sorted(set(E.fp_uses)),
-        "assumptions": sorted(E.assumptions_used), "second": dict(E.second),
+        "assumptions": sorted(E.assumptions_used), "second": dict(E.second), "known_hits": list(E.known_hits),
     }
     E.stats = stats0
     cp1252.clear_caches()
